@@ -268,45 +268,41 @@ Section Sim.
   Lemma sim_assoc st sh i k v : Rheap (heap st) sh -> hazard_neg L st (OAssoc i k v) = false ->
     sim_step st sh (OAssoc i k v).
   Proof.
-    intros HR HZ. begin. cbn [hazard_neg] in HZ. cases_on st sh i HR; rd; (split; [|exact HR]); try reflexivity.
+    intros HR HZ. begin. cbn [hazard_neg] in HZ. cases_on st sh i HR; rd; (split; [|exact HR]); try reflexivity; try (destruct ic; reflexivity).
     - pose proof (map_assoc_acc (m_empty L) None k v) as H. rewrite H_map_empty in H. exact H.
     - destruct c as [p|p|p|p|p]; cbn [abs_coll]; try reflexivity.
       + apply vec_assoc_sim. eapply hz_vec; eauto. exact ONil.
       + apply map_assoc_acc.
-    - destruct ic; reflexivity.
   Qed.
 
   Lemma sim_update st sh i k : Rheap (heap st) sh -> hazard_neg L st (OUpdate i k) = false ->
     sim_step st sh (OUpdate i k).
   Proof.
-    intros HR HZ. begin. cbn [hazard_neg] in HZ. cases_on st sh i HR; rd; (split; [|exact HR]); try reflexivity.
+    intros HR HZ. begin. cbn [hazard_neg] in HZ. cases_on st sh i HR; rd; (split; [|exact HR]); try reflexivity; try (destruct ic; reflexivity).
     - pose proof (map_assoc_acc (m_empty L) None k (upd_fn enil)) as H. rewrite H_map_empty in H. exact H.
     - destruct c as [p|p|p|p|p]; cbn [abs_coll]; try reflexivity.
       + assert (neg_key k = false) as N by (eapply hz_vec; eauto; exact ONil).
         rewrite (vec_val_at_sim p k enil N). apply vec_assoc_sim. exact N.
       + rewrite H_map_get. apply map_assoc_acc.
-    - destruct ic; reflexivity.
   Qed.
 
   Lemma sim_dissoc st sh i k : Rheap (heap st) sh -> sim_step st sh (ODissoc i k).
   Proof.
-    intros HR. begin. cases_on st sh i HR; rd; (split; [|exact HR]); try reflexivity.
+    intros HR. begin. cases_on st sh i HR; rd; (split; [|exact HR]); try reflexivity; try (destruct ic; reflexivity).
     - destruct c as [p|p|p|p|p]; cbn [abs_coll]; try reflexivity.
       destruct (map_dissoc_sim L p k) as (p' & E & P). rewrite E. rd. apply acc_coll_ce. constructor. symmetry. exact P.
-    - destruct ic; reflexivity.
   Qed.
 
   Lemma sim_disj st sh i x : Rheap (heap st) sh -> sim_step st sh (ODisj i x).
   Proof.
-    intros HR. begin. cases_on st sh i HR; rd; (split; [|exact HR]); try reflexivity.
+    intros HR. begin. cases_on st sh i HR; rd; (split; [|exact HR]); try reflexivity; try (destruct ic; reflexivity).
     - destruct c as [p|p|p|p|p]; cbn [abs_coll]; try reflexivity.
       destruct (set_dissoc_sim L p x) as (p' & E & P). rewrite E. rd. apply acc_coll_ce. constructor. symmetry. exact P.
-    - destruct ic; reflexivity.
   Qed.
 
   Lemma sim_pop st sh i : Rheap (heap st) sh -> sim_step st sh (OPop i).
   Proof.
-    intros HR. begin. cases_on st sh i HR; rd; (split; [|exact HR]); try reflexivity.
+    intros HR. begin. cases_on st sh i HR; rd; (split; [|exact HR]); try reflexivity; try (destruct ic; reflexivity).
     - destruct c as [p|p|p|p|p]; cbn [abs_coll]; try reflexivity.
       + unfold vec_pop. rewrite H_pvec_len, zlen_eq0. destruct (pv_list L p) eqn:E; [reflexivity|].
         rd. apply acc_coll_ce. cbn [abs_coll]. rewrite H_pvec_init, E. constructor.
@@ -314,14 +310,13 @@ Section Sim.
         rd. apply acc_coll_ce. cbn [abs_coll]. rewrite H_plist_rest, E. constructor.
       + rewrite H_pdeque_len, zlen_eq0. destruct (dq_list L p) eqn:E; [reflexivity|].
         rd. apply acc_coll_ce. cbn [abs_coll]. rewrite H_pdeque_popleft, E. constructor.
-    - destruct ic; reflexivity.
   Qed.
 
   Lemma nth_error_last (l : list elem) d : l <> [] -> nth_error l (length l - 1) = Some (last l d).
   Proof.
     induction l as [|x r IH]; [congruence|]. intros _. destruct r as [|y r']; [reflexivity|].
-    change (length (x :: y :: r') - 1)%nat with (S (length (y :: r') - 1)).
-    - simpl nth_error. rewrite IH by discriminate. reflexivity.
+    replace (length (x :: y :: r') - 1)%nat with (S (length (y :: r') - 1)) by (simpl; lia).
+    cbn [nth_error]. rewrite IH by discriminate. reflexivity.
   Qed.
 
   Lemma py_nth_last l : l <> [] -> py_nth l (-1) = Some (last l enil).
@@ -336,18 +331,17 @@ Section Sim.
 
   Lemma sim_peek st sh i : Rheap (heap st) sh -> sim_step st sh (OPeek i).
   Proof.
-    intros HR. begin. cases_on st sh i HR; rd; (split; [|exact HR]); try reflexivity.
+    intros HR. begin. cases_on st sh i HR; rd; (split; [|exact HR]); try reflexivity; try (destruct ic; reflexivity).
     - destruct c as [p|p|p|p|p]; cbn [abs_coll]; try reflexivity.
       + unfold vec_peek. rewrite H_pvec_len, zlen_eq0, H_pvec_get. destruct (pv_list L p) as [|x r] eqn:E; [reflexivity|].
         rewrite py_nth_last by discriminate. rd. apply acc_val.
       + rewrite H_plist_first. destruct (pl_list L p); apply acc_val.
       + rewrite H_pdeque_left. destruct (dq_list L p); apply acc_val.
-    - destruct ic; reflexivity.
   Qed.
 
   Lemma sim_empty st sh i : Rheap (heap st) sh -> sim_step st sh (OEmpty i).
   Proof.
-    intros HR. begin. cases_on st sh i HR; rd; (split; [|exact HR]); try reflexivity.
+    intros HR. begin. cases_on st sh i HR; rd; (split; [|exact HR]); try reflexivity; try (destruct ic; reflexivity).
     apply acc_coll_ce. apply abs_coll_empty.
   Qed.
 
@@ -355,15 +349,162 @@ Section Sim.
     sim_step st sh (OWithMeta i m).
   Proof.
     intros HR HZ. begin. cbn [hazard_meta] in HZ. destruct m as [n|].
-    - cases_on st sh i HR; rd; (split; [|exact HR]); try reflexivity.
+    - cases_on st sh i HR; rd; (split; [|exact HR]); try reflexivity; try (destruct ic; reflexivity).
       apply acc_collmeta_ce. apply abs_coll_with_meta.
-    - cases_on st sh i HR; rd; (split; [|exact HR]); try reflexivity.
+    - cases_on st sh i HR; rd; (split; [|exact HR]); try reflexivity; try (destruct ic; reflexivity).
       rewrite E1 in HZ. destruct m; [discriminate|]. apply acc_collmeta_ce. apply cequiv_refl.
   Qed.
 
   Lemma sim_meta st sh i : Rheap (heap st) sh -> sim_step st sh (OMeta i).
   Proof.
-    intros HR. begin. cases_on st sh i HR; rd; (split; [|exact HR]); try reflexivity.
+    intros HR. begin. cases_on st sh i HR; rd; (split; [|exact HR]); try reflexivity; try (destruct ic; reflexivity).
     destruct m; rd; [apply acc_exact|reflexivity].
+  Qed.
+
+  (** ** into *)
+  Lemma remeta_spec c0 ic m : cequiv c0 (abs_coll L ic) ->
+    exists ic', remeta L ic m = RColl ic' m /\ cequiv c0 (abs_coll L ic').
+  Proof.
+    intro H. unfold remeta. destruct m as [n|].
+    - eexists; split; [reflexivity|]. eapply cequiv_trans; [exact H|apply abs_coll_with_meta].
+    - eexists; split; [reflexivity|exact H].
+  Qed.
+
+  Definition into_coll (c : icoll L) (m : option N) (xs : list elem) : ires L :=
+    match c with
+    | IVec p => remeta L (IVec (fst (ev_persistent L (fold_left (ev_append L) xs (pv_evolver L p))))) m
+    | IMap p => match map_cons L p xs with Some p' => remeta L (IMap p') m | None => RErr EValue end
+    | ISet p => match set_cons L p xs with Some p' => remeta L (ISet p') m | None => RErr EValue end
+    | IList p => RColl (IList (list_cons L p xs)) m
+    | IQueue p => RColl (IQueue (fold_left (fun q x => dq_extend L q [x]) xs p)) m
+    end.
+
+  Lemma into_coll_spec c m xs : conj_spec c xs (into_coll c m xs).
+  Proof.
+    unfold conj_spec, into_coll. destruct c as [p|p|p|p|p]; simpl abs_coll.
+    - rewrite c_conj_vec.
+      destruct (remeta_spec (CVec (pv_list L p ++ xs))
+                  (IVec (fst (ev_persistent L (fold_left (ev_append L) xs (pv_evolver L p))))) m) as (ic' & E & H).
+      { simpl. rewrite H_evolver_persistent, fold_ev_append, H_evolver_of. constructor. }
+      rewrite E. eauto.
+    - rewrite c_conj_list. eexists _, _. split; [reflexivity|]. simpl. unfold list_cons. rewrite fold_pl_cons. constructor.
+    - rewrite c_conj_queue. eexists _, _. split; [reflexivity|]. simpl. rewrite fold_dq_extend1. constructor.
+    - pose proof (map_cons_sim L p xs) as H.
+      destruct (map_cons L p xs) as [p'|], (c_conj (CMap (m_items L p)) xs) as [[]|]; try contradiction.
+      + destruct (remeta_spec (CMap m0) (IMap p') m) as (ic' & E & H'); [constructor; symmetry; exact H|].
+        rewrite E. eauto.
+      + reflexivity.
+    - rewrite c_conj_set. destruct (set_cons_sim L p xs) as (p' & E & P). rewrite E.
+      destruct (remeta_spec (CSet (fold_left (fun acc x => s_add x acc) xs (set_keys L p))) (ISet p') m) as (ic' & E' & H').
+      { constructor. symmetry. exact P. }
+      rewrite E'. eauto.
+  Qed.
+
+  Lemma sim_into st sh i j : Rheap (heap st) sh -> sim_step st sh (OInto i j).
+  Proof.
+    intros HR. begin. unfold op_into. cases_on st sh i HR.
+    - (* to = nil *)
+      cases_on st sh j HR; rd; (split; [|exact HR]); try reflexivity.
+      cbn [into_items]. rewrite items_abs. destruct (c_items (abs_coll L c)) as [|x r] eqn:E; [reflexivity|].
+      apply conj_nil_acc.
+    - (* to = a collection *)
+      cases_on st sh j HR; rd; (split; [|exact HR]); try reflexivity.
+      + cbn [into_items]. change (XColl (abs_coll L c)) with (xcoll_or_err (c_conj (abs_coll L c) [])).
+        apply (conj_spec_accept c []). apply (into_coll_spec c m []).
+      + cbn [into_items]. rewrite <- items_abs. apply (conj_spec_accept c (items_of L c0)).
+        apply (into_coll_spec c m (items_of L c0)).
+    - (* to = a transient *)
+      cases_on st sh j HR; rd; (split; [|exact HR]); try reflexivity.
+      cbn [into_items]. destruct (items_of L c); reflexivity.
+    - rd. split; [reflexivity|exact HR].
+  Qed.
+
+  (** ** merge *)
+  Lemma fold_al_set_nodup m : forall acc, nodupk m = true -> (forall k, memk k m = true -> memk k acc = false) ->
+    fold_left (fun a kv => al_set (fst kv) (snd kv) a) m acc = acc ++ m.
+  Proof.
+    induction m as [|[k v] r IH]; intros acc N D; simpl; [rewrite app_nil_r; reflexivity|].
+    unfold nodupk in N. simpl in N. apply andb_true_iff in N as [N1 N2].
+    assert (memk k acc = false) as Hk.
+    { apply D. unfold memk. simpl. rewrite keq_refl. reflexivity. }
+    rewrite (al_set_notin _ _ _ Hk). rewrite IH; [rewrite <- app_assoc; reflexivity|exact N2|].
+    intros k' H'. unfold memk. rewrite map_app, mem_app. simpl. rewrite orb_false_r.
+    assert (memk k' acc = false) as Ha by (apply D; unfold memk; simpl; unfold memk in H'; rewrite H'; apply orb_true_r).
+    unfold memk in Ha. rewrite Ha. simpl. destruct (keq k' k) eqn:E; [|reflexivity].
+    apply negb_true_iff in N1. unfold memk in H'. rewrite (mem_keq _ _ _ E) in H'. congruence.
+  Qed.
+
+  Lemma al_of_nodup m : nodupk m = true -> al_of m = m.
+  Proof. intro N. unfold al_of. rewrite fold_al_set_nodup; auto. Qed.
+
+  (** merging a nil / map argument into a mutation *)
+  Lemma merge_arg_sim mm m t s : Rmut L mm m -> mm_fin L mm = false ->
+    (t = TNil L /\ s = SNil) \/ (exists p mt, t = TColl L (IMap p) mt /\ s = SColl (CMap (m_items L p)) mt) ->
+    exists m2 mm', Spec.merge_arg s = Some m2 /\ Model.merge_arg L mm t = Some mm' /\
+                   Rmut L mm' (fold_left (fun a kv => al_set (fst kv) (snd kv) a) m2 m) /\ mm_fin L mm' = false.
+  Proof.
+    intros R F [[-> ->]|(p & mt & -> & ->)]; simpl.
+    - exists [], mm. auto.
+    - destruct (fold_set_sim L (m_items L p) mm m R F) as (mm' & E & R' & F'). exists (m_items L p), mm'. auto.
+  Qed.
+
+  Definition mergeable (t : tgt L) (s : stgt) : Prop :=
+    (t = TNil L /\ s = SNil) \/ (exists p mt, t = TColl L (IMap p) mt /\ s = SColl (CMap (m_items L p)) mt).
+
+  Lemma merge_defined ta sa tb sb : mergeable ta sa -> mergeable tb sb ->
+    (ta = TNil L /\ tb = TNil L) \/
+    exists m1 m2 pr, Spec.merge_arg sa = Some m1 /\ Spec.merge_arg sb = Some m2 /\
+      op_merge L ta tb = RColl (IMap pr) None /\
+      Permutation (m_items L pr) (fold_left (fun a kv => al_set (fst kv) (snd kv) a) m2 m1).
+  Proof.
+    intros Ha Hb. destruct (Rmut_mutate L (m_empty L)) as [R0 F0]. rewrite H_map_empty in R0.
+    destruct (merge_arg_sim _ _ ta sa R0 F0 Ha) as (m1 & mm1 & S1 & M1 & R1 & F1).
+    destruct (merge_arg_sim _ _ tb sb R1 F1 Hb) as (m2 & mm2 & S2 & M2 & R2 & F2).
+    assert (fold_left (fun a kv => al_set (fst kv) (snd kv) a) m1 [] = m1) as Em1.
+    { destruct Ha as [[_ ->]|(p & mt & _ & ->)]; simpl in S1; inversion S1; subst; [reflexivity|].
+      apply al_of_nodup. apply H_map_nodup. }
+    rewrite Em1 in R1, R2.
+    destruct Ha as [[-> ->]|(pa & ma & -> & ->)], Hb as [[-> ->]|(pb & mb & -> & ->)]; [left; auto| | |];
+      right; exists m1, m2, (finish L mm2); (repeat split; try assumption);
+      try (apply Rmut_finish; exact R2); unfold op_merge; rewrite M1, M2; reflexivity.
+  Qed.
+
+  Lemma acc_any_res (r : ires L) : (forall c, r <> RErr c \/ (c <=? 7)%N = true) -> accept XAny (abs_res L r) = true.
+  Proof. intro H. destruct r; try reflexivity. simpl. destruct (H cls) as [N|E]; [congruence|exact E]. Qed.
+
+  Lemma op_merge_shape ta tb : (exists p, op_merge L ta tb = RColl (IMap p) None) \/ op_merge L ta tb = RErr EValue \/
+    op_merge L ta tb = RErr EBadRef \/ op_merge L ta tb = RVal enil.
+  Proof.
+    unfold op_merge. destruct ta, tb; auto;
+      repeat match goal with |- context [match ?x with Some _ => _ | None => _ end] => destruct x end; eauto.
+  Qed.
+
+  Lemma merge_any ta tb : accept XAny (abs_res L (op_merge L ta tb)) = true.
+  Proof.
+    destruct (op_merge_shape ta tb) as [(p & E)|[E|[E|E]]]; rewrite E; reflexivity.
+  Qed.
+
+  Lemma sim_merge st sh i j : Rheap (heap st) sh -> sim_step st sh (OMerge i j).
+  Proof.
+    intros HR. begin. split; [|exact HR]. rd.
+    destruct (target_cases st sh i HR) as [[A1 A2]|[(ca & ma & A1 & A2)|[(aa & ia & sa & A1 & A2 & _)|[A1 A2]]]];
+    destruct (target_cases st sh j HR) as [[B1 B2]|[(cb & mb & B1 & B2)|[(ab & ib & sb & B1 & B2 & _)|[B1 B2]]]];
+    rewrite A1, A2, B1, B2; try reflexivity; try apply merge_any.
+    - (* nil, coll *)
+      destruct cb as [p|p|p|p|p]; try apply merge_any.
+      destruct (merge_defined (TNil L) SNil (TColl L (IMap p) mb) (SColl (CMap (m_items L p)) mb)) as [[_ H]|(m1 & m2 & pr & S1 & S2 & E & P)];
+        [left; auto|right; eauto|discriminate|].
+      cbn [abs_coll]. rewrite S1, S2, E. rd. apply acc_coll_ce. constructor. symmetry. exact P.
+    - (* coll, nil *)
+      destruct ca as [p|p|p|p|p]; try apply merge_any.
+      destruct (merge_defined (TColl L (IMap p) ma) (SColl (CMap (m_items L p)) ma) (TNil L) SNil) as [[H _]|(m1 & m2 & pr & S1 & S2 & E & P)];
+        [right; eauto|left; auto|discriminate|].
+      cbn [abs_coll]. rewrite S1, S2, E. rd. apply acc_coll_ce. constructor. symmetry. exact P.
+    - (* coll, coll *)
+      destruct ca as [p|p|p|p|p], cb as [q|q|q|q|q]; try apply merge_any.
+      destruct (merge_defined (TColl L (IMap p) ma) (SColl (CMap (m_items L p)) ma)
+                              (TColl L (IMap q) mb) (SColl (CMap (m_items L q)) mb)) as [[H _]|(m1 & m2 & pr & S1 & S2 & E & P)];
+        [right; eauto|right; eauto|discriminate|].
+      cbn [abs_coll]. rewrite S1, S2, E. rd. apply acc_coll_ce. constructor. symmetry. exact P.
   Qed.
 End Sim.
